@@ -146,8 +146,8 @@ theorem escapes_exactly (c : Cfg) (inj : Inj) (co ro : Option ExcKind) :
     (run facts14 c inj co ro).escaped = ((truth inj co ro).serFail && c.transport == .serverBase) :=
   (run_row facts14 trace_spec_table c inj co ro).1
 
-theorem wsgi_never_escapes (o : OutProto) (inj : Inj) (co ro : Option ExcKind) :
-    (run facts14 ⟨o, .wsgi⟩ inj co ro).escaped = false := by
+theorem wsgi_never_escapes (o : OutProto) (sh : Shape) (inj : Inj) (co ro : Option ExcKind) :
+    (run facts14 ⟨o, .wsgi, sh⟩ inj co ro).escaped = false := by
   rw [escapes_exactly]; simp
 
 /-- the trace is accepted, in the state that records what really happened -/
@@ -275,14 +275,23 @@ theorem lower_levels_never_see_created_closed (c : Cfg) (inj : Inj) (w : World) 
 /-- if the WSGI transport does not fire method_exception_object when serialising the return value fails
     (the pinned tree: D21), the property fails for that injection -/
 theorem serialize_failure_needs_exception_object :
-    rowOk { facts14 with wsgiSerFail := ⟨[], false⟩ } (true, .wsgi, ⟨.serialize, .exc, true⟩, none, none) = false := by
+    rowOk { facts14 with wsgiSerFail := ⟨[], false⟩ } ⟨false, false, .wsgi, .serialize, .exc, none, none⟩ = false := by
   decide
 
 /-- if an exception that is not a Fault escapes ServerBase.generate_contexts / get_in_object (the pinned
     tree), the context is never closed -/
 theorem parse_escape_breaks_closed :
-    rowOk { facts14 with genCtx := fun _ => ⟨[], true⟩ } (true, .wsgi, ⟨.createInDoc, .exc, false⟩, none, none) = false ∧
-    rowOk { facts14 with getIn := fun _ => ⟨[], true⟩ } (true, .wsgi, ⟨.deserialize, .exc, true⟩, none, none) = false := by
+    rowOk { facts14 with genCtx := fun _ => ⟨[], true⟩ } ⟨false, false, .wsgi, .createInDoc, .exc, none, none⟩ = false ∧
+    rowOk { facts14 with getIn := fun _ => ⟨[], true⟩ } ⟨false, false, .wsgi, .deserialize, .exc, none, none⟩ = false := by
+  decide
+
+/-- the string event must not depend on whether the output protocol produced any bytes: a
+    finalize_context that skips it when ctx.out_string is None breaks the property for a method without a
+    return value served by HttpRpc -/
+theorem string_event_needed_when_out_string_is_none :
+    rowOk { facts14 with fin := fun fault none =>
+              if none then (if fault then [.exceptionDocument] else [.returnDocument]) else facts14.fin fault none }
+      ⟨true, false, .wsgi, .none, .fault, none, none⟩ = false := by
   decide
 
 /-! ### non-vacuity -/
@@ -294,13 +303,17 @@ example : (Mgr.inherit [Mgr.build [(1, 7), (1, 8)], Mgr.build [(1, 8), (1, 3)]])
 example : (Mgr.empty.applyAll [Op.add 1 7, .add 1 8, .add 1 7, .del 1 7]).fire 1 = [8] := by decide
 example : (Mgr.empty.applyAll [Op.add 1 7, .add 1 8, .del 1 7, .add 1 7, .del 1 9, .add 2 3]).fire 1 = [8, 7] := by decide
 example : (Mgr.empty.applyAll [Op.add 1 7, .add 1 8, .clear 1, .add 1 8]).fire 1 = [8] := by decide
+-- a method without a return value over HttpRpc: the output protocol leaves out_string None, all events still fire
+example : facts14.leavesNone .httpRpc .void = true := by decide
+example : methodView (run facts14 ⟨.httpRpc, .wsgi, .void⟩ ⟨.none, .fault, false⟩ none none).steps
+    = [.ev .created, .ev .call, .user, .ev .returnObject, .ev .returnDocument, .ev .returnString, .ev .closed] := by decide
 -- the table is not empty, the automaton accepts five traces
 example : allRows.length = 1152 := by decide +kernel
 example : (lang 9 .start).length = 5 := by decide +kernel
 -- runs that do not escape exist for every kind of failure; one that escapes exists
-example : (run facts14 ⟨.soap11, .wsgi⟩ ⟨.serialize, .exc, true⟩ none none).escaped = false := by decide
-example : (run facts14 ⟨.soap11, .serverBase⟩ ⟨.serialize, .exc, true⟩ none none).escaped = true := by decide
-example : methodView (run facts14 ⟨.json, .wsgi⟩ ⟨.none, .fault, false⟩ none (some .exc)).steps
+example : (run facts14 ⟨.soap11, .wsgi, .value⟩ ⟨.serialize, .exc, true⟩ none none).escaped = false := by decide
+example : (run facts14 ⟨.soap11, .serverBase, .value⟩ ⟨.serialize, .exc, true⟩ none none).escaped = true := by decide
+example : methodView (run facts14 ⟨.json, .wsgi, .value⟩ ⟨.none, .fault, false⟩ none (some .exc)).steps
     = [.ev .created, .ev .call, .user, .ev .returnObject, .ev .exceptionObject, .ev .exceptionDocument,
        .ev .exceptionString, .ev .closed] := by decide
 -- a world that satisfies the hypotheses of `first_app_listener_sees_spec`, with a raising listener
@@ -315,8 +328,8 @@ def exampleWorld : World where
 example : callOutcome exampleWorld = some .exc := by decide
 example : (∀ ev, ∃ rest, exampleWorld.app ev = 0 :: rest ∧ 0 ∉ rest) ∧ (∀ ev, exampleWorld.raises 0 ev = none) :=
   ⟨fun _ => ⟨[4], rfl, by decide⟩, fun ev => by simp [exampleWorld]⟩
-example : viewOf (.meth 0) 6 (trace facts14 ⟨.xml, .wsgi⟩ ⟨.none, .fault, false⟩ exampleWorld) = [.call] := by decide
-example : viewOf .svc 7 (trace facts14 ⟨.xml, .wsgi⟩ ⟨.none, .fault, false⟩ exampleWorld)
+example : viewOf (.meth 0) 6 (trace facts14 ⟨.xml, .wsgi, .value⟩ ⟨.none, .fault, false⟩ exampleWorld) = [.call] := by decide
+example : viewOf .svc 7 (trace facts14 ⟨.xml, .wsgi, .value⟩ ⟨.none, .fault, false⟩ exampleWorld)
     = [.exceptionObject, .exceptionDocument, .exceptionString] := by decide
 
 end SpyneModel.Props.C14
